@@ -420,10 +420,21 @@ class FixedSchedule:
 class DFS:
     """stateless depth-first enumeration of schedules, optionally with sleep sets"""
 
-    def __init__(self, reduce: bool) -> None:
+    def __init__(self, reduce: bool, bound: int | None = None) -> None:
         self.reduce = reduce
+        # `bound`: only schedules with at most that many PRE-EMPTIONS (switching away from a thread that could
+        # have continued); every line-level interleaving within the bound is executed — no independence
+        # relation, hence no blind spot for shared data reached through a local alias
+        self.bound = bound
         self.frames: list[dict] = []       # per depth: enabled, Z (sleeping: tid -> silent?), done (tid -> silent?), chosen
         self.prefix: list[int] = []
+
+    @staticmethod
+    def _cost(f: dict, t: int) -> int:
+        return 1 if (f.get("last") in f["enabled"] and t != f.get("last")) else 0
+
+    def _within(self, f: dict, t: int) -> bool:
+        return self.bound is None or f.get("used", 0) + self._cost(f, t) <= self.bound
 
     def __call__(self, k: int, runnable: list[int], last: Any, prev_silent: bool) -> Any:
         if k > 0:
@@ -445,12 +456,18 @@ class DFS:
             for u, s in list(pf["Z"].items()) + [(u, s) for u, s in pf["done"].items() if u != tp]:
                 if s or prev_silent:
                     Z[u] = s
-        cands = [t for t in runnable if t not in Z]
+        used = 0
+        if k > 0:
+            pf = self.frames[k - 1]
+            used = pf.get("used", 0) + self._cost(pf, pf["chosen"])
+        nf = {"enabled": runnable, "Z": Z, "done": {}, "chosen": None, "last": last, "used": used}
+        cands = [t for t in runnable if t not in Z and self._within(nf, t)]
         if not cands:
-            self.frames.append({"enabled": runnable, "Z": Z, "done": {}, "chosen": None})
+            self.frames.append(nf)
             return None
         t = last if last in cands else cands[0]
-        self.frames.append({"enabled": runnable, "Z": Z, "done": {}, "chosen": t})
+        nf["chosen"] = t
+        self.frames.append(nf)
         return t
 
     def next_prefix(self) -> list[int] | None:
@@ -459,7 +476,7 @@ class DFS:
             f = self.frames[k]
             if f["chosen"] is not None and f["chosen"] not in f["done"]:
                 f["done"][f["chosen"]] = False      # abandoned before its step ended: treat as not silent
-            cands = [t for t in f["enabled"] if t not in f["Z"] and t not in f["done"]]
+            cands = [t for t in f["enabled"] if t not in f["Z"] and t not in f["done"] and self._within(f, t)]
             if cands:
                 self.prefix = [fr["chosen"] for fr in self.frames[:k]] + [cands[0]]
                 del self.frames[k + 1:]
@@ -480,11 +497,12 @@ def run_once(setup: Callable[[Scheduler], Any], make_bodies: Callable[[Any], lis
 
 def explore(setup: Callable[[Scheduler], Any], make_bodies: Callable[[Any], list[Callable[[int], Any]]],
             n: int, files: set[str], on_run: Callable[[RunResult], bool | None],
-            max_schedules: int = 100000, max_steps: int = 5000, reduce: bool = False) -> tuple[int, int, bool]:
+            max_schedules: int = 100000, max_steps: int = 5000, reduce: bool = False,
+            bound: int | None = None) -> tuple[int, int, bool]:
     """DFS over schedules (all of them, or one per class modulo silent steps if `reduce`).
     `on_run(result)` is called for every COMPLETE run (and for deadlocks / overruns) and may return True
     to stop early.  Returns (complete runs, pruned runs, exhaustive?)."""
-    dfs = DFS(reduce)
+    dfs = DFS(reduce, bound)
     count = pruned = 0
     while True:
         r = run_once(setup, make_bodies, n, files, dfs, max_steps)
